@@ -22,7 +22,7 @@ RULE = ('every element (both isotope modes) and every tabulated isotope once (ex
         'count >1 or an isotope/charge suffix (i.e. is not a bare element symbol); distinct by (kind, rendered text(s), '
         'isotope mode, factor)')
 SHARDS = {'quick': 16, 'thorough': 16}
-MIN_NONTRIVIAL = {'quick': 1500, 'thorough': 30000}
+MIN_NONTRIVIAL = {'quick': 1000, 'thorough': 30000}
 TIME_CAP = {'quick': 45, 'thorough': 780}
 REQUIRED_CLASSES = ['single-element', 'single-isotope', 'natural', 'most-abundant', 'group', 'nesting>=3',
                     'multiplied-group-followed-by-group', 'multiplied-group-followed-by-explicit-plus',
